@@ -950,6 +950,46 @@ section Round4Conv
 open Mahotas.C10Conv
 -- (theorems of this package go between this line and the `end`)
 
+/-- **C10, `_convolve.cpp: rank_filter` — the scratch vector `n_data` (`resize(N2)`).** For every footprint size `N2`, every
+`rank` with `0 ≤ rank < N2` (what `_check_rank` guarantees: `C11_rank_guards_imply_pre`; outside that range the kernel returns before
+any access), every border mode and EVERY outcome of the `N2` `retrieve` calls of a pixel: each store `neighbours[n++]` and the read
+`neighbours[currank]` is inside the `N2` cells; the final count satisfies `0 ≤ n ≤ N2` (`= N2` in constant mode);
+`0 ≤ currank ≤ n`, so `std::nth_element(neighbours, neighbours + currank, neighbours + n)` gets a valid range; and whenever at
+least one neighbour was retrieved `currank < n`: the value written to the result was stored for THIS pixel. (Only for `n = 0` —
+`ignore` mode with a footprint that misses the image entirely — `neighbours[0]` is a value-initialised or stale cell of the
+vector: defined memory, see `C08_rank_filter_ignore_stale_witness`.) -/
+theorem C10_rank_filter_in_bounds (n2 rank : Int) (isConst : Bool) (retr : List Bool) (hlen : (retr.length : Int) = n2)
+    (hr0 : 0 ≤ rank) (hr : rank < n2) :
+    allOk (rankPixelAccesses n2 rank isConst retr) = true ∧
+    0 ≤ (rankStores isConst retr 0).2 ∧ (rankStores isConst retr 0).2 ≤ n2 ∧
+    (isConst = true → (rankStores isConst retr 0).2 = n2) ∧
+    0 ≤ curRank n2 (rankStores isConst retr 0).2 rank ∧
+    curRank n2 (rankStores isConst retr 0).2 rank ≤ (rankStores isConst retr 0).2 ∧
+    (0 < (rankStores isConst retr 0).2 → curRank n2 (rankStores isConst retr 0).2 rank < (rankStores isConst retr 0).2) := by
+  obtain ⟨h1, h2, h3, h4⟩ := rankStores_spec isConst retr 0
+  have hn : (rankStores isConst retr 0).2 ≤ n2 := by omega
+  obtain ⟨c1, c2, c3, c4⟩ := curRank_spec n2 _ rank hr0 hr h1 hn
+  refine ⟨?_, h1, hn, fun hc => by have := h4 hc; omega, c1, c2, c4⟩
+  rw [Mahotas.C10Conv.allOk_iff]
+  intro a ha
+  simp only [rankPixelAccesses] at ha
+  rw [if_neg (by omega)] at ha
+  simp only [List.mem_append, List.mem_map, List.mem_singleton] at ha
+  rcases ha with ⟨i, hi, rfl⟩ | rfl
+  · have := h3 i hi; simp only; omega
+  · exact ⟨c1, c3⟩
+
+/-- non-vacuity: a 5-cell footprint, `ignore` mode, two neighbours outside the image, rank 2 (the median): three stores at 0, 1, 2,
+`currank = 3*2/5 = 1`; with `rank = 5` nothing is accessed; over a vector of 2 cells the third store would be outside -/
+example : rankPixelAccesses 5 2 false [true, false, true, true, false] = [⟨0, 5⟩, ⟨1, 5⟩, ⟨2, 5⟩, ⟨1, 5⟩] ∧
+    rankPixelAccesses 5 5 false [true, false, true, true, false] = [] ∧
+    allOk ((rankStores false [true, true, true] 0).1.map (fun i => CAcc.mk i 2)) = false := by decide
+
+/-- **C10, `rank_filter`: the rank test in front of the loop is necessary.** Without `rank >= N2` rejected, `rank = N2` with every
+neighbour retrieved reads `neighbours[N2]`, one past the vector, for every footprint size. -/
+theorem C10_rank_filter_needs_rank_guard (n2 : Int) : (CAcc.mk (curRank n2 n2 n2) n2).ok = false := by
+  simp [curRank, CAcc.ok]
+
 end Round4Conv
 -- ---------------------------------------------------------------------------------------------------------
 
@@ -958,6 +998,246 @@ end Round4Conv
 section Round4Alloc
 open Mahotas.C10Alloc
 -- (theorems of this package go between this line and the `end`)
+
+/-- **C10, uninitialised results — `std::fill` / `fill_n` / `PyArray_FILLWBYTE` / `a.fill(v)` / `a[...] = v`.** For every size `n`:
+every store is inside the buffer and EVERY cell `0 … n-1` is stored (so nothing of what the allocation left in the buffer survives). -/
+theorem C10_alloc_fill_defined (n : Nat) : within n (fillWrites n) = true ∧ covers n (fillWrites n) = true := by
+  rw [within_iff, covers_iff]
+  exact ⟨fun i hi => (mem_fillWrites n i).mp hi, fun i hi => (mem_fillWrites n i).mpr ⟨by omega, by omega⟩⟩
+
+example : fillWrites 3 = [0, 1, 2] ∧ covers 4 (fillWrites 3) = false := by decide
+
+/-- **C10, uninitialised results — the pixel loop** (`convolve`, `rank_filter`, `mean_filter`, `template_match`, `erode`,
+`zoom_shift`'s output iterator, `fast_hitmiss`, the footprint copy of `filter_iterator`, `hitmiss`'s cursor): a pointer that starts at
+cell 0, ONE unconditional store per iteration, advanced once per iteration, `N` iterations. For every `N`: all stores inside the
+buffer of `N` cells, and every cell stored. -/
+theorem C10_alloc_pixel_loop_defined (n : Nat) : within n (pixelWrites n) = true ∧ covers n (pixelWrites n) = true := by
+  rw [within_iff, covers_iff]
+  exact ⟨fun i hi => (mem_pixelWrites n i).mp hi, fun i hi => (mem_pixelWrites n i).mpr ⟨by omega, by omega⟩⟩
+
+example : pixelWrites 4 = [0, 1, 2, 3] := by decide
+/-- a pixel loop that skips the store in one iteration (a `continue` in front of `*rpos = …`) leaves a cell undefined -/
+example : covers 4 ((pixelWrites 4).erase 2) = false := by decide
+
+/-- **C10, uninitialised results — row/column loops over a C-contiguous 2-D result** (`convolve1d` fast path into `out` / the
+`np.empty` scratch `tmp`, `gaussian_filter`): for all `N0`, `N1` every `y*N1 + x` is inside the `N0*N1` cells and every cell is stored. -/
+theorem C10_alloc_rows_defined (n0 n1 : Nat) :
+    within (n0 * n1) (rowsWrites n0 n1) = true ∧ covers (n0 * n1) (rowsWrites n0 n1) = true := by
+  rw [within_iff, covers_iff]
+  exact ⟨grid_within n0 n1, grid_covers n0 n1⟩
+
+example : rowsWrites 2 3 = [0, 1, 2, 3, 4, 5] := by decide
+
+/-- **C10, `_convex.cpp: convexhull`.** The `(h, 2)` result of `PyArray_SimpleNew` is filled by `*oiter++ = y; *oiter++ = x` for
+`i < h`: for every hull size `h` (0 included: an empty result has no cell) all stores are inside the `2h` cells and every cell is stored. -/
+theorem C10_alloc_convexhull_output_defined (h : Nat) :
+    within (h * 2) (pairsWrites h) = true ∧ covers (h * 2) (pairsWrites h) = true := by
+  rw [within_iff, covers_iff]
+  refine ⟨fun i hi => ?_, fun i hi => ?_⟩
+  · have := (mem_pairsGo h 0 i).mp hi; push_cast; omega
+  · exact (mem_pairsGo h 0 i).mpr ⟨by omega, by omega⟩
+
+example : pairsWrites 2 = [0, 1, 2, 3] ∧ pairsWrites 0 = [] := by decide
+
+/-- **C10, `_surf.cpp`: the point arrays returned by `surf`, `descriptors`, `interest_points`.** `new_array<double>(n, k)` followed by
+`points[i].dump(arr.data(i))` for `i < n`, where `dump` stores `out[0 … k-1]`: for every `n`, `k` all stores are inside the `n*k` cells
+and every cell is stored. -/
+theorem C10_alloc_surf_records_defined (n k : Nat) :
+    within (n * k) (recordsWrites n k) = true ∧ covers (n * k) (recordsWrites n k) = true := by
+  rw [within_iff, covers_iff]
+  exact ⟨grid_within n k, grid_covers n k⟩
+
+example : recordsWrites 2 5 = [0, 1, 2, 3, 4, 5, 6, 7, 8, 9] := by decide
+
+/-- **C10, `_bbox.cpp: py_bbox` / `py_bbox_labeled`.** The `2*nd` cells (`bbox_labeled`: `osize = 2*nd*(n+1)` cells, `j < osize/2`)
+are stored by `extrema_v[2*j] = …; extrema_v[2*j+1] = 0` before the scan only reads-modifies them: for every `nd`, inside and complete. -/
+theorem C10_alloc_bbox_extrema_defined (nd : Nat) :
+    within (2 * nd) (bboxInitWrites nd) = true ∧ covers (2 * nd) (bboxInitWrites nd) = true := by
+  rw [within_iff, covers_iff]
+  refine ⟨fun i hi => ?_, fun i hi => ?_⟩
+  · obtain ⟨j, hj, h | h⟩ := (mem_bboxInit nd i).mp hi <;> (push_cast; omega)
+  · exact (mem_bboxInit nd i).mpr ⟨i / 2, by omega, by omega⟩
+
+example : bboxInitWrites 2 = [0, 1, 2, 3] := by decide
+/-- an odd `osize` would leave the last cell of the labeled output undefined (`labeled.py` allocates `f.ndim * 2 * (n+1)`: even) -/
+example : covers 5 (bboxInitWrites (5 / 2)) = false := by decide
+
+/-- **C10, `zernike.py: An = np.empty(…, complex128); An.real = …; An.imag = …`**: seen as `2n` doubles every cell is stored. -/
+theorem C10_alloc_complex_halves_defined (n : Nat) :
+    within (2 * n) (complexHalvesWrites n) = true ∧ covers (2 * n) (complexHalvesWrites n) = true := by
+  rw [within_iff, covers_iff]
+  refine ⟨fun i hi => ?_, fun i hi => ?_⟩
+  · obtain ⟨j, hj, h | h⟩ := (mem_complexHalves n i).mp hi <;> (push_cast; omega)
+  · exact (mem_complexHalves n i).mpr ⟨i / 2, by omega, by omega⟩
+
+example : complexHalvesWrites 2 = [0, 2, 1, 3] := by decide
+
+/-- **C10, `_filters.h: filter_iterator(…, compress = true)`.** `new_filter_data = new T[size_]` with `size_` = the number of non-zero
+filter cells (what `init_filter_offsets` counts from `footprint[i] = !!filter[i]`), stored by `if (*fiter) new_filter_data[j++] = *fiter`:
+for EVERY filter content the stores are inside the `size_` cells and every cell is stored (the kernels index `filter[j]`, `j < size_`). -/
+theorem C10_alloc_filter_compress_defined (mask : List Bool) :
+    within (compressSize mask) (compressWrites mask) = true ∧ covers (compressSize mask) (compressWrites mask) = true := by
+  rw [within_iff, covers_iff]
+  refine ⟨fun i hi => ?_, fun i hi => ?_⟩
+  · have := (mem_compressGo mask 0 i).mp hi; simp only [compressSize]; omega
+  · exact (mem_compressGo mask 0 i).mpr ⟨by omega, by simp only [compressSize] at hi; omega⟩
+
+example : compressWrites [true, false, true, true, false] = [0, 1, 2] ∧ compressSize [true, false, true, true, false] = 3 := by decide
+example : compressWrites [false, false] = [] ∧ compressSize [false, false] = 0 := by decide
+
+/-- **C10, `_zernike.cpp: py_znl`, the scratch `g_m = new double[int((n-l)/2) + 1]`.** For ALL ints `n`, `l` (C division truncating
+towards zero): every `g_m[m]` of the filling loop `m = 0 … (n-l)/2` is inside the allocation, every cell is stored, and every `g_m[m]`
+the element loop reads was stored. (For `n - l ≤ -2` the allocation size is `≤ 0` and both loops run zero times.) -/
+theorem C10_alloc_znl_gm_defined (n l : Int) :
+    within (gmSize n l).toNat (gmIndices n l) = true ∧ covers (gmSize n l).toNat (gmIndices n l) = true ∧
+      readsDefined (gmIndices n l) (gmIndices n l) = true := by
+  rw [within_iff, covers_iff, readsDefined_iff]
+  refine ⟨fun i hi => ?_, fun i hi => ?_, fun i hi => hi⟩
+  · have := (mem_gmIndices n l i).mp hi; omega
+  · exact (mem_gmIndices n l i).mpr ⟨by omega, by omega⟩
+
+example : gmIndices 8 2 = [0, 1, 2, 3] ∧ gmSize 8 2 = 4 ∧ gmIndices 3 7 = [] := by decide
+
+/-- **C10, `thin.py: imagebuf = np.empty((r+2, c+2), bool)`** (scratch of `_thin.thin`): in every round `fast_hitmiss` stores
+`*output++` once per input byte, BEFORE the clearing loop reads `*pb` for `j < N`: all stores/reads inside, every cell stored,
+every cell read was stored in the same round. -/
+theorem C10_alloc_thin_buffer_defined (n : Nat) :
+    within n (hitmissBufRound n).1 = true ∧ covers n (hitmissBufRound n).1 = true ∧
+      within n (hitmissBufRound n).2 = true ∧ readsDefined (hitmissBufRound n).1 (hitmissBufRound n).2 = true := by
+  refine ⟨(C10_alloc_pixel_loop_defined n).1, (C10_alloc_pixel_loop_defined n).2, (C10_alloc_pixel_loop_defined n).1, ?_⟩
+  rw [readsDefined_iff]; exact fun i hi => hi
+
+/-- **C10, `majority_filter` (and `find2d`): fill, then window stores.** `PyArray_FILLWBYTE(res_a, 0)` stores every cell; the
+stores of the window loops `output.data() + (y + N/2)*cols + N/2 + x` (`y < rows-N`, `x < cols-N`, taken only when `rows, cols ≥ N`)
+stay inside the `rows*cols` cells, for every size and every window `N` (even, zero and larger than the image included). -/
+theorem C10_alloc_window_defined (rows cols win : Nat) :
+    within (rows * cols) (windowWrites rows cols win) = true ∧ covers (rows * cols) (windowWrites rows cols win) = true := by
+  rw [within_iff, covers_iff]
+  refine ⟨fun i hi => ?_, fun i hi => ?_⟩
+  · simp only [windowWrites, List.mem_append] at hi
+    rcases hi with hi | hi
+    · exact (mem_fillWrites _ i).mp hi
+    · split at hi
+      · simp at hi
+      · rename_i hw
+        simp only [List.mem_flatMap, List.mem_map, List.mem_range, Int.ofNat_eq_natCast] at hi
+        obtain ⟨y, hy, x, hx, rfl⟩ := hi
+        have h1 : y + win / 2 < rows := by omega
+        have h2 : win / 2 + x < cols := by omega
+        have := grid_lt rows cols (y + win / 2) (win / 2 + x) h1 h2
+        push_cast at this ⊢
+        constructor
+        · positivity
+        · linarith
+  · simp only [windowWrites, List.mem_append]
+    exact Or.inl ((mem_fillWrites _ i).mpr ⟨by omega, by exact_mod_cast hi⟩)
+
+example : windowWrites 4 4 3 = (fillWrites 16) ++ [5] := by decide
+example : windowWrites 2 5 3 = fillWrites 10 := by decide
+
+/-- one row of the cover: an allocation site of uninitialised memory (`file`, enclosing `fn`, variable, ordinal), the loop shape that
+fills the buffer (`mech`, with the source text in `how`), the theorems of this file about that shape and about the kernel's index
+arithmetic, and whether "every cell stored before it is read/returned" is PROVED for the shape (`false`: validated only, by the
+two-heap-fillings sweep of `harness/props/c10.py`). -/
+structure AllocCover where
+  file : String
+  fn : String
+  var : String
+  ord : Nat
+  mech : String
+  how : String
+  thms : List Lean.Name
+  proved : Bool
+
+/-- the hand-written cover of `Generated.allocSiteTable` (regenerated from the sources on every run) -/
+def allocCover : List AllocCover := [
+  ⟨"_bbox.cpp", "py_bbox", "extrema", 0, "bboxinit", "for j != nd: extrema_v[2*j] = DIM(j); extrema_v[2*j+1] = 0 right after the allocation", [``C10_alloc_bbox_extrema_defined, ``C10_bbox_in_bounds], true⟩,
+  ⟨"_center_of_mass.cpp", "py_center_of_mass", "centers", 0, "fill", "std::fill(centers_v, centers_v + dims[0], 0) before the kernel", [``C10_alloc_fill_defined, ``C10_center_of_mass_in_bounds], true⟩,
+  ⟨"_center_of_mass.cpp", "py_center_of_mass", "totals", 0, "fill", "std::fill(totals, totals + max_label + 1, 0.0) right after new[]", [``C10_alloc_fill_defined], true⟩,
+  ⟨"_convex.cpp", "convexhull", "output", 0, "pairs", "for i != h: *oiter++ = P[i].y; *oiter++ = P[i].x into the (h,2) result", [``C10_alloc_convexhull_output_defined, ``C10_graham_in_bounds], true⟩,
+  ⟨"_convolve.cpp", "py_convolve", "output", 0, "pixel", "convolve<T>: one store *rpos per iteration of the pixel loop", [``C10_alloc_pixel_loop_defined], true⟩,
+  ⟨"_distance.cpp", "py_dt", "z", 0, "validated", "Felzenszwalb-Huttenlocher scratch: z[0], z[1] stored before the scan, z[k+1] stored whenever k is advanced; definedness of the cells read is not proved (bounds: C10_dist_transform_in_bounds)", [``C10_dist_transform_in_bounds], false⟩,
+  ⟨"_distance.cpp", "py_dt", "v", 0, "validated", "FH scratch: v[0] stored first, v[k] stored when k is advanced; not proved", [``C10_dist_transform_in_bounds], false⟩,
+  ⟨"_distance.cpp", "py_dt", "ot", 0, "validated", "FH scratch copy of the origins line, filled for q < n before it is read; not proved", [``C10_dist_transform_in_bounds], false⟩,
+  ⟨"_distance.cpp", "py_dt", "Df", 0, "validated", "FH scratch copy of the line, Df[q] stored for q < n before the scan reads it; not proved", [``C10_dist_transform_in_bounds], false⟩,
+  ⟨"_morph.cpp", "py_close_holes", "res_a", 0, "fill", "close_holes starts with std::fill_n(f.data(), f.size(), false)", [``C10_alloc_fill_defined], true⟩,
+  ⟨"_surf.cpp", "build_pyramid", "pyramid", 0, "fill", "PyArray_FILLWBYTE(pyramid[o].raw_array(), 0) right after new_array", [``C10_alloc_fill_defined, ``C10_surf_pyramid_in_bounds], true⟩,
+  ⟨"_surf.cpp", "py_surf", "arr", 0, "records", "for i: spoints[i].dump(arr.data(i)) stores all ndoubles cells of row i", [``C10_alloc_surf_records_defined], true⟩,
+  ⟨"_surf.cpp", "py_descriptors", "arr", 0, "records", "for i: spoints[i].dump(arr.data(i))", [``C10_alloc_surf_records_defined], true⟩,
+  ⟨"_surf.cpp", "py_interest_points", "arr", 0, "records", "for i: interest_points[i].dump(arr.data(i))", [``C10_alloc_surf_records_defined], true⟩,
+  ⟨"_zernike.cpp", "py_znl", "g_m", 0, "gm", "for m <= (n-l)/2: g_m[m] = … before the element loop reads g_m[m] over the same range", [``C10_alloc_znl_gm_defined], true⟩,
+  ⟨"_filters.h", "filter_iterator", "footprint", 0, "pixel", "for i != filter_size: footprint[i] = !!(*fiter)", [``C10_alloc_pixel_loop_defined], true⟩,
+  ⟨"_filters.h", "filter_iterator", "new_filter_data", 0, "compress", "j = 0; for i: if (*fiter) new_filter_data[j++] = *fiter into new T[size_]", [``C10_alloc_filter_compress_defined], true⟩,
+  ⟨"array.hpp", "new_array", "?", 0, "helper", "numpy::new_array: the allocation helper itself; its call sites are the four _surf.cpp rows", [``C10_alloc_surf_records_defined, ``C10_alloc_fill_defined], true⟩,
+  ⟨"array.hpp", "array_like", "return", 0, "helper", "numpy::array_like: allocation helper without a call site in the current sources", [], true⟩,
+  ⟨"convolve.py", "convolve", "output", 0, "pixel", "_convolve.convolve pixel loop", [``C10_alloc_pixel_loop_defined], true⟩,
+  ⟨"convolve.py", "convolve1d", "out", 0, "rows", "native fast path: result.data(y)[x] for every row and column (C06 fastwrites); other axes: generic convolve pixel loop", [``C10_alloc_rows_defined, ``C10_alloc_pixel_loop_defined, ``C10_convolve1d_in_bounds], true⟩,
+  ⟨"convolve.py", "convolve1d", "tmp", 0, "rows", "native fast path writes every column of every row of tmp before out[...] = tmp…", [``C10_alloc_rows_defined, ``C10_convolve1d_in_bounds], true⟩,
+  ⟨"convolve.py", "median_filter", "output", 0, "pixel", "rank_filter pixel loop (rank in range by _check_rank: C11_rank_guards_imply_pre)", [``C10_alloc_pixel_loop_defined, ``C10_rank_filter_in_bounds], true⟩,
+  ⟨"convolve.py", "mean_filter", "out", 0, "pixel", "mean_filter pixel loop", [``C10_alloc_pixel_loop_defined], true⟩,
+  ⟨"convolve.py", "rank_filter", "output", 0, "pixel", "rank_filter pixel loop (rank in range by _check_rank: C11_rank_guards_imply_pre)", [``C10_alloc_pixel_loop_defined, ``C10_rank_filter_in_bounds], true⟩,
+  ⟨"convolve.py", "template_match", "output", 0, "pixel", "template_match pixel loop", [``C10_alloc_pixel_loop_defined], true⟩,
+  ⟨"convolve.py", "find", "out", 0, "window", "find2d: std::fill(rpos, rpos + N0*N1, false) before the window loops", [``C10_alloc_fill_defined, ``C10_find2d_in_bounds], true⟩,
+  ⟨"convolve.py", "gaussian_filter", "output", 0, "rows", "filled by convolve1d (fast path rows / generic pixel loop) per axis", [``C10_alloc_rows_defined, ``C10_alloc_pixel_loop_defined], true⟩,
+  ⟨"features/texture.py", "haralick", "cmat", 0, "fill", "cooccurence(f, dir, cmat, …) executes output.fill(0) before the kernel", [``C10_alloc_fill_defined, ``C10_cooccurence_in_bounds], true⟩,
+  ⟨"features/texture.py", "haralick_features", "px_plus_y", 0, "fill", "px_plus_y.fill(0) before _texture.compute_plus_minus (which only adds)", [``C10_alloc_fill_defined, ``C10_compute_plus_minus_in_bounds], true⟩,
+  ⟨"features/texture.py", "haralick_features", "px_minus_y", 0, "fill", "px_minus_y.fill(0) before _texture.compute_plus_minus", [``C10_alloc_fill_defined, ``C10_compute_plus_minus_in_bounds], true⟩,
+  ⟨"features/zernike.py", "zernike_moments", "An", 0, "complexhalves", "An.real = Xn/Dn; An.imag = Yn/Dn", [``C10_alloc_complex_halves_defined], true⟩,
+  ⟨"internal.py", "_get_output", "return", 0, "helper", "np.empty(array.shape, dtype) of _get_output: handed to the callers listed as get_output rows", [], true⟩,
+  ⟨"interpolate.py", "spline_filter1d", "output", 0, "fill", "output[...] = array before the in-place kernel", [``C10_alloc_fill_defined, ``C10_spline_filter1d_in_bounds], true⟩,
+  ⟨"interpolate.py", "spline_filter", "output", 0, "fill", "output[...] = array before the in-place kernel", [``C10_alloc_fill_defined, ``C10_spline_filter1d_in_bounds], true⟩,
+  ⟨"interpolate.py", "zoom", "out", 0, "pixel", "zoom_shift: *io = cval or *io = t for every element of the output iterator", [``C10_alloc_pixel_loop_defined, ``C10_zoom_shift_in_bounds], true⟩,
+  ⟨"interpolate.py", "zoom", "out", 1, "pixel", "zoom_shift: *io = cval or *io = t for every element of the output iterator", [``C10_alloc_pixel_loop_defined, ``C10_zoom_shift_in_bounds], true⟩,
+  ⟨"interpolate.py", "shift", "output", 0, "pixel", "zoom_shift output iterator loop", [``C10_alloc_pixel_loop_defined, ``C10_zoom_shift_in_bounds], true⟩,
+  ⟨"labeled.py", "label", "output", 0, "fill", "output[:] = (array != 0) before _labeled.label", [``C10_alloc_fill_defined], true⟩,
+  ⟨"labeled.py", "border", "output", 0, "fill", "output.fill(False) before _labeled.border", [``C10_alloc_fill_defined], true⟩,
+  ⟨"labeled.py", "borders", "output", 0, "fill", "output.fill(False) before _labeled.borders", [``C10_alloc_fill_defined], true⟩,
+  ⟨"labeled.py", "labeled_sum", "output", 0, "fill", "labeled_foldl: std::fill(result, result + maxlabel, start)", [``C10_alloc_fill_defined, ``C10_labeled_foldl_in_bounds], true⟩,
+  ⟨"labeled.py", "labeled_max", "output", 0, "fill", "labeled_foldl: std::fill(result, result + maxlabel, start)", [``C10_alloc_fill_defined, ``C10_labeled_foldl_in_bounds], true⟩,
+  ⟨"labeled.py", "labeled_min", "output", 0, "fill", "labeled_foldl: std::fill(result, result + maxlabel, start)", [``C10_alloc_fill_defined, ``C10_labeled_foldl_in_bounds], true⟩,
+  ⟨"labeled.py", "bbox", "output", 0, "bboxinit", "py_bbox_labeled: for j < osize/2: extrema_v[2*j] = …; extrema_v[2*j+1] = 0 (osize = 2*nd*(n+1) is even)", [``C10_alloc_bbox_extrema_defined, ``C10_bbox_labeled_in_bounds], true⟩,
+  ⟨"morph.py", "dilate", "output", 0, "fill", "dilate<T>: std::fill / std::copy of the whole result before the scatter loop (C08_defined_everywhere_dilate, C08_defined_everywhere_fast_binary)", [``C10_alloc_fill_defined, ``C10_fastbinary_in_bounds], true⟩,
+  ⟨"morph.py", "erode", "output", 0, "pixel", "erode<T>: pixel loop; fast binary path: std::copy / std::fill_n first (C08_defined_everywhere_erode, C08_defined_everywhere_fast_binary)", [``C10_alloc_pixel_loop_defined, ``C10_alloc_fill_defined, ``C10_fastbinary_in_bounds], true⟩,
+  ⟨"morph.py", "cerode", "out", 0, "pixel", "_morph.erode(f, Bc, out)", [``C10_alloc_pixel_loop_defined, ``C10_alloc_fill_defined], true⟩,
+  ⟨"morph.py", "hitmiss", "out", 0, "pixel", "hitmiss<T>: every store is res.at_flat(i) at the loop cursor i, which then advances by one (margin run: at_flat(i++) = 0), return only when i == N", [``C10_alloc_pixel_loop_defined, ``C10_hitmiss_in_bounds], true⟩,
+  ⟨"morph.py", "majority_filter", "output", 0, "window", "PyArray_FILLWBYTE(res_a, 0) before the window loops", [``C10_alloc_window_defined, ``C10_majority_in_bounds], true⟩,
+  ⟨"morph.py", "locmax", "output", 0, "fill", "PyArray_FILLWBYTE(output, 0) in py_locminmax", [``C10_alloc_fill_defined], true⟩,
+  ⟨"morph.py", "locmin", "output", 0, "fill", "PyArray_FILLWBYTE(output, 0) in py_locminmax", [``C10_alloc_fill_defined], true⟩,
+  ⟨"morph.py", "regmin", "output", 0, "fill", "PyArray_FILLWBYTE(output, 0) in py_regminmax", [``C10_alloc_fill_defined], true⟩,
+  ⟨"morph.py", "regmax", "output", 0, "fill", "PyArray_FILLWBYTE(output, 0) in py_regminmax", [``C10_alloc_fill_defined], true⟩,
+  ⟨"morph.py", "subm", "out", 0, "fill", "out[:] = a before _morph.subm (in place)", [``C10_alloc_fill_defined], true⟩,
+  ⟨"morph.py", "tophat_close", "out", 0, "fill", "handed to subm(fc, f, out=out): out[:] = a", [``C10_alloc_fill_defined], true⟩,
+  ⟨"morph.py", "tophat_open", "out", 0, "fill", "handed to subm(f, fo, out=out): out[:] = a", [``C10_alloc_fill_defined], true⟩,
+  ⟨"resize.py", "resize_to", "out", 0, "pixel", "handed to zoom(out=out): zoom_shift output iterator loop", [``C10_alloc_pixel_loop_defined, ``C10_zoom_shift_in_bounds], true⟩,
+  ⟨"resize.py", "imresize", "out", 0, "pixel", "handed to zoom(out=out): zoom_shift output iterator loop", [``C10_alloc_pixel_loop_defined, ``C10_zoom_shift_in_bounds], true⟩,
+  ⟨"thin.py", "thin", "imagebuf", 0, "hitmissbuf", "scratch: fast_hitmiss stores every cell (*output++ per input byte) before the clearing loop reads it, in every round", [``C10_alloc_thin_buffer_defined, ``C10_thin_in_bounds], true⟩
+]
+
+/-- **C10, uninitialised results: every allocation site is classified.** `translator/allocs.py` lists every allocation of
+uninitialised memory in the current sources (`PyArray_SimpleNew`, `PyArray_EMPTY`, `new_array`, `new T[n]`, `operator new`,
+`np.empty`, `np.empty_like`, `np.ndarray(shape)`, and every call of `_get_output`): each of them has a row in `allocCover` naming the
+loop shape that fills it and the theorems about that shape. A NEW result buffer that nobody has looked at makes this `decide` fail. -/
+theorem C10_alloc_sites_covered :
+    Mahotas.Generated.allocSiteTable.all (fun s =>
+      allocCover.any fun c => c.file == s.1 && c.fn == s.2.1 && c.var == s.2.2.1 && c.ord == s.2.2.2.2) = true := by
+  decide +kernel
+
+/-- **C10, uninitialised results: what is NOT proved.** Exactly four sites are validated only (no theorem that every cell read
+was stored): the scratch arrays `z`, `v`, `ot`, `Df` of the Felzenszwalb–Huttenlocher passes in `_distance.cpp: py_dt` (their index
+bounds are `C10_dist_transform_in_bounds`). Every other site is filled by a loop shape with a `C10_alloc_*_defined` theorem. -/
+theorem C10_alloc_validated_only :
+    (allocCover.filter fun c => !c.proved).map (fun c => (c.file, c.var)) =
+      [("_distance.cpp", "z"), ("_distance.cpp", "v"), ("_distance.cpp", "ot"), ("_distance.cpp", "Df")] ∧
+    allocCover.all (fun c => c.proved → (c.mech == "helper" || !c.thms.isEmpty)) = true := by
+  decide +kernel
+
+-- every theorem the cover cites exists (a renamed or deleted theorem breaks the build)
+open Lean in
+#eval show CoreM Unit from do
+  let env ← getEnv
+  for c in allocCover do
+    for n in c.thms do
+      unless env.contains n do throwError "allocCover: {c.file}:{c.fn}:{c.var} cites the unknown theorem {n}"
 
 end Round4Alloc
 -- ---------------------------------------------------------------------------------------------------------
